@@ -377,7 +377,8 @@ func (vr *variableResolver) resolve(ctx *ExecutionContext) (*Value, error) {
 						if sv.IsNil() {
 							return AsValue(nil), nil
 						}
-						if sv.val.Type().AssignableTo(current.Type().Key()) {
+						if sv.val.Type().AssignableTo(current.Type().Key()) && isComparable(sv.val) {
+							// (a key that cannot be hashed, e.g. a slice for a map[any]T, is like a missing key)
 							current = current.MapIndex(sv.val)
 						} else {
 							return AsValue(nil), nil
@@ -469,22 +470,25 @@ func (vr *variableResolver) resolve(ctx *ExecutionContext) (*Value, error) {
 
 				if fnArg != typeOfValuePtr {
 					// Function's argument is not a *pongo2.Value, then we have to check whether input argument is of the same type as the function's argument
+					// (an interface parameter takes whatever implements it, or nil)
+					argType := reflect.TypeOf(pv.Interface())
+					typeOK := fnArg == argType ||
+						(fnArg.Kind() == reflect.Interface && (argType == nil || argType.AssignableTo(fnArg)))
 					if !isVariadic {
-						if fnArg != reflect.TypeOf(pv.Interface()) && fnArg.Kind() != reflect.Interface {
+						if !typeOK {
 							return nil, fmt.Errorf("function input argument %d of '%s' must be of type %s or *pongo2.Value (not %T)",
 								idx, vr.String(), fnArg.String(), pv.Interface())
 						}
 					} else {
-						if fnArg != reflect.TypeOf(pv.Interface()) && fnArg.Kind() != reflect.Interface {
+						if !typeOK {
 							return nil, fmt.Errorf("function variadic input argument of '%s' must be of type %s or *pongo2.Value (not %T)",
 								vr.String(), fnArg.String(), pv.Interface())
 						}
 					}
 
 					if pv.IsNil() {
-						// Workaround to present an interface nil as reflect.Value
-						var empty any = nil
-						parameters = append(parameters, reflect.ValueOf(&empty).Elem())
+						// A nil argument is the nil of the parameter's type
+						parameters = append(parameters, reflect.Zero(fnArg))
 					} else {
 						parameters = append(parameters, reflect.ValueOf(pv.Interface()))
 					}
